@@ -1107,6 +1107,15 @@ func (g *gen) orderStmt(b *block, sc *scope) {
 		b.add("%s.A, %s.B = 10, 11", gs, gs)
 		b.add("func() {\n\t%s[1], %s.B = %s[1]+20, %s.B+30\n\tr := &%s[2]\n\t*r++\n}()", ga, gs, ga, gs, ga)
 		b.add("println(%q, %s[0], %s[1], %s[2], %s.A, %s.B)", tag, ga, ga, ga, gs, gs)
+		// arrays and structs are passed by value, also from package-level
+		// and captured variables, to calls, deferred calls and closures
+		wr := g.newID("wr")
+		b.add("%s := func(a [3]int, s struct{ A, B int }) int {\n\ta[0], s.A = 99, 98\n\ta[1]++\n\treturn a[0] + a[1] + s.A\n}", wr)
+		b.add("println(%q, %s(%s, %s), %s[0], %s[1], %s.A)", tag, wr, ga, gs, ga, ga, gs)
+		la := g.newID("la")
+		b.add("%s := %s", la, ga)
+		b.add("func() {\n\tdefer %s(%s, %s)\n\tprintln(%q, %s(%s, %s), %s[0])\n}()", wr, ga, gs, tag, wr, la, gs, la)
+		b.add("println(%q, %s[0], %s[1], %s[0], %s.A)", tag, ga, ga, la, gs)
 	case 8:
 		// operands of comparisons with a length are evaluated in source order
 		g.feat("len-compare-order")
